@@ -26,6 +26,9 @@ def check(ctx):
     repo = ctx.repo
     from . import generic as _gen
     _gen.language_traps(ctx, _gen.anchor_functions(repo, "C09"), "the property holds for every input, on every call")
+    for m_ in ("select", "unselect"):
+        _gen.argument_as_given(ctx, repo.fn(f"dataiter.data_frame.DataFrame.{m_}"), repo.fn(f"dataiter.data_frame.DataFrame.{m_}").vararg, [()],
+                               "select / unselect honour the requested names -- an empty request included")
     for r, t in (("STO-6", "colnames assignment is two-phase"), ("ORD-2", "rbind: all inputs in order, ordered union of names, NA parts"),
                  ("NAME", "select / rename / unselect: name-value provenance"), ("DUP", "cbind / update / modify duplicate handling"),
                  ("WHOLE", "untouched columns are yielded whole")):
